@@ -87,6 +87,7 @@ class ClassInfo:
         if kind is None or any(m in self.methods for m in ("__init__", "__new__", "__post_init__")):
             return
         fields = []
+        factories: Dict[str, ast.AST] = {}
         for b in node.body:
             if isinstance(b, ast.AnnAssign) and isinstance(b.target, ast.Name):
                 if "ClassVar" in ast.unparse(b.annotation):
@@ -99,7 +100,9 @@ class ClassInfo:
                     if "default" in kw:
                         dflt = kw["default"]
                     elif "default_factory" in kw:
-                        dflt = ast.Call(func=kw["default_factory"], args=[], keywords=[])
+                        # evaluated per construction, not a shared default: `self.f = factory() if f is <missing> else f`
+                        dflt = ast.Constant(value=None)
+                        factories[b.target.id] = kw["default_factory"]
                     else:
                         dflt = None
                 fields.append((b.target.id, dflt))
@@ -111,8 +114,14 @@ class ClassInfo:
                              kwonlyargs=[], kw_defaults=[], defaults=[copy_node(d) for _f, d in fields if d is not None])
         if any(d is None for _f, d in fields[len(fields) - len(args.defaults):]):
             return      # a field without default after one with a default: not a valid record, leave it alone
+        def stored(f):
+            if f in factories:
+                return ast.IfExp(test=ast.Compare(left=ast.Name(id=f, ctx=ast.Load()), ops=[ast.Is()], comparators=[ast.Constant(value=None)]),
+                                 body=ast.Call(func=copy_node(factories[f]), args=[], keywords=[]), orelse=ast.Name(id=f, ctx=ast.Load()))
+            return ast.Name(id=f, ctx=ast.Load())
+
         body = [ast.Assign(targets=[ast.Attribute(value=ast.Name(id="self", ctx=ast.Load()), attr=f, ctx=ast.Store())],
-                           value=ast.Name(id=f, ctx=ast.Load()), lineno=node.lineno) for f, _d in fields]
+                           value=stored(f), lineno=node.lineno) for f, _d in fields]
         fn = ast.FunctionDef(name="__init__", args=args, body=body, decorator_list=[], returns=None, type_comment=None, type_params=[])
         ast.copy_location(fn, node)
         for x in ast.walk(fn):
